@@ -1,5 +1,5 @@
 """C01 - containers behave as a sorted map / sorted set."""
-from .. import families, gen, hist
+from .. import explore, families, gen, hist
 from ..families import INT_RANGES
 from ..runner import rng_for
 
@@ -30,6 +30,8 @@ def must_see(tier):
     m['none-key-present'] = 1
     m['int-extreme-present'] = 1
     m['single-key-raise-unchanged'] = 1
+    m['explore:closed'] = 4
+    m['explore:states'] = 5000
     for impl in ('c', 'py'):
         m[impl + ':stored:sweep'] = 300
         m[impl + ':read-dependency-refused'] = 20
@@ -51,10 +53,16 @@ def plan(tier, seed):
             specs.append(dict(label='%s-c-asan' % fam, family=fam, impl='c',
                               histories=150, seed=seed + 1000, tier=tier,
                               variant='asan', timeout=7200))
+    # systematic: every operation in every reachable state of a small
+    # universe (vmon/explore.py); the families differ from C03's
+    specs += explore.specs_for(ID, tier, seed, ['fs', 'QO'],
+                               ['fs', 'QO', 'OO', 'II', 'LF', 'UU', 'OL'])
     return specs
 
 
 def run_shard(spec, rec):
+    if spec.get('explore'):
+        return explore.run_shard(ID, spec, rec)
     fam = families.get(spec['family'])
     impl = spec['impl']
     for kind in families.KINDS:
